@@ -3,6 +3,7 @@ package main
 // Property drivers: which functions, obligations and lemmas decide each property.
 
 import (
+	"runtime/debug"
 	"encoding/json"
 	"fmt"
 	"os"
@@ -20,6 +21,7 @@ type Task struct {
 	Opts   RunOpts
 	Tier   string // "" = both tiers, "thorough" = thorough only
 	Timeout int
+	NoFP   bool // leave obligations with floating point to the case-split stages
 }
 
 type Lemma struct {
@@ -44,10 +46,13 @@ type CheckCtx struct {
 	Samples  []interface{}
 	Extra    map[string]interface{}
 	ToolErr  []string
+	Warn     []string
 	Instances int
 	Exhaustive bool
 	TracesValidated int
 	fpGoals map[string]bool // case-split goals: covered by at least one stage?
+	calleePosts map[string]map[string]bool // callee -> ensures labels assumed at call sites during this check
+	calleeAlloc map[string]bool            // callee -> some assumed clause speaks about allocs
 }
 
 type PropDef struct {
@@ -96,6 +101,10 @@ func viewLemmas(w *World, tier string) []Lemma {
 
 var props = map[string]*PropDef{}
 
+var reachablePkgs = map[string][]string{
+	"C03": {"30", "31"}, "C04": {"40"}, "C05": {"20"}, "C10": {"30", "31", "40"}, "C11": allPkgs, "C12": allPkgs,
+}
+
 func init() {
 	props["C07"] = &PropDef{
 		ID: "C07",
@@ -119,8 +128,23 @@ func init() {
 				ts = append(ts, Task{Pkg: p, Func: "(" + typeOf(p) + ").Get", Match: ``})
 				ts = append(ts, Task{Pkg: p, Func: "(" + typeOf(p) + ").get", Match: ``})
 				ts = append(ts, Task{Pkg: p, Func: "validate", Match: ``})
+				// "every scoring function returns without panicking" on well-formed objects
+				if p != "40" {
+					for _, f := range []string{"BaseScore", "TemporalScore", "EnvironmentalScore", "Impact", "Exploitability"} {
+						ts = append(ts, Task{Pkg: p, Func: "(" + typeOf(p) + ")." + f, Match: `/safety/`, NoFP: true})
+					}
+				}
 			}
 			return ts
+		},
+		Custom: func(cc *CheckCtx) {
+			// v4.0 Score: safety (lookupMV's panic arms, index bounds), callee preconditions and cuts for
+			// each of the 270 MacroVectors; macroVector's contract; the split is exhaustive
+			cc.runScore40(`^$`, true)
+			cc.runTask(Task{Pkg: "40", Func: "(CVSS40).macroVector", Match: `/post/eq\d$|/safety/`})
+			for _, l := range score40Lemmas(cc.W, cc.Tier) {
+				cc.runLemma(l)
+			}
 		},
 		Lemmas:  viewLemmas,
 		Trusted: trustedCommon,
@@ -184,9 +208,10 @@ func (cc *CheckCtx) runTask(t Task) {
 	key := t.Pkg + "." + t.Func
 	cc.Funcs[key] = true
 	if fr.Err != "" {
-		cc.ToolErr = append(cc.ToolErr, key+": "+fr.Err)
+		cc.funcErr(t.Pkg, t.Func, fr.Err)
 		return
 	}
+	cc.noteWarn(fr)
 	for k := range fr.VC.Inlined {
 		cc.Inlined[k] = true
 	}
@@ -213,6 +238,9 @@ func (cc *CheckCtx) runTask(t Task) {
 		switch o.Kind {
 		case "lemma", "inv", "pre", "variant", "cut", "repr":
 			return true
+		}
+		if t.NoFP && hasFP(o.Cond) {
+			return false
 		}
 		return re == nil || re.MatchString(o.Name)
 	})
@@ -294,7 +322,8 @@ func runCheck(id, tier string, seed int64) int {
 	cc := &CheckCtx{W: w, Prop: id, Tier: tier, Seed: seed, Funcs: map[string]bool{}, Inlined: map[string]bool{}, Modular: map[string]bool{}, Extern: map[string]bool{}, Extra: map[string]interface{}{}}
 	if pd.Tasks != nil {
 		for _, t := range pd.Tasks(tier) {
-			cc.runTask(t)
+			t := t
+			cc.guard("gocvss"+t.Pkg+"."+t.Func, func() { cc.runTask(t) })
 		}
 	}
 	if pd.Lemmas != nil {
@@ -303,14 +332,199 @@ func runCheck(id, tier string, seed int64) int {
 		}
 	}
 	if pd.Custom != nil {
-		pd.Custom(cc)
+		cc.guard(id+"/driver", func() { pd.Custom(cc) })
 	}
+	// properties quantified over "every reachable object" assume well-formedness: the facts that make
+	// every reachable object well formed (zero value, Set preserves wf; ParseVector builds its result
+	// through Set) are discharged in the same check
+	if pk := reachablePkgs[id]; pk != nil {
+		for _, p := range pk {
+			p := p
+			cc.guard("gocvss"+p+".Set", func() {
+				before := len(cc.Results)
+				cc.runTask(Task{Pkg: p, Func: "(*" + typeOf(p) + ").Set", Match: `/post/wf_preserved$|/repr/`})
+				cc.dedupe(before)
+			})
+		}
+		for _, l := range viewLemmas(w, tier) {
+			if strings.HasSuffix(l.Name, "/zero_value_wf") {
+				for _, p := range pk {
+					if l.Pkg == p {
+						before := len(cc.Results)
+						cc.runLemma(l)
+						cc.dedupe(before)
+					}
+				}
+			}
+		}
+	}
+	cc.guard(id+"/callee-contracts", func() { cc.closeCallees() })
 	for g, covered := range cc.fpGoals {
 		if !covered && !(tier == "quick" && len(cc.Notes) > 0) {
 			cc.ToolErr = append(cc.ToolErr, "case-split goal not closed by any stage: "+g)
 		}
 	}
 	return cc.finish(pd, time.Since(t0).Seconds())
+}
+
+// funcErr records that a function under contract could not be brought through the verifier.  When
+// the reason lies in the code or in the fit between code and contract (a construct outside the
+// supported subset, a contract expression naming a local that no longer exists, a loop without an
+// invariant), the function's obligations, all discharged on the unchanged tree, can no longer be
+// discharged: that is reported as one undischarged obligation of the function, carrying the reason.
+// Anything else (function missing, prelude failure) is a tool error.
+func (cc *CheckCtx) funcErr(pkg, fn, err string) {
+	if !strings.Contains(err, "outside-subset:") {
+		cc.ToolErr = append(cc.ToolErr, pkg+"."+fn+": "+err)
+		return
+	}
+	name := fmt.Sprintf("gocvss%s.%s/contract/body_within_verified_subset", pkg, fn)
+	for _, r := range cc.Results {
+		if r.Name == name {
+			return
+		}
+	}
+	cc.Results = append(cc.Results, ObResult{Name: name, Kind: "subset", Pkg: pkg, Func: fn, Status: "undischarged", Solver: "govc",
+		Output: "the obligations of this function were generated and discharged on the unchanged tree; with the current body they cannot be generated: " + err})
+}
+
+// guard: a panic of the verifier while it processes the current code (the drivers of the case splits
+// expect the call structure the contracts describe) means the obligations that were discharged on the
+// unchanged tree can no longer be generated; reported like funcErr.
+func (cc *CheckCtx) guard(what string, f func()) {
+	defer func() {
+		if r := recover(); r != nil {
+			if _, isUnsup := r.(unsupErr); !isUnsup {
+				fmt.Fprintf(os.Stderr, "govc: verifier panic while processing %s: %v\n%s\n", what, r, debug.Stack())
+			}
+			termMuUnlockIfHeld()
+			cc.Results = append(cc.Results, ObResult{Name: what + "/contract/body_within_verified_subset", Kind: "subset", Status: "undischarged", Solver: "govc",
+				Output: fmt.Sprintf("the obligations were generated and discharged on the unchanged tree; with the current code the verifier could not generate them: %v", r)})
+		}
+	}()
+	f()
+}
+
+func (cc *CheckCtx) noteWarn(fr *FuncRun) {
+	if fr.VC != nil {
+		for k, ls := range fr.VC.ModularPosts {
+			if cc.calleePosts == nil {
+				cc.calleePosts = map[string]map[string]bool{}
+				cc.calleeAlloc = map[string]bool{}
+			}
+			if cc.calleePosts[k] == nil {
+				cc.calleePosts[k] = map[string]bool{}
+			}
+			for l := range ls {
+				cc.calleePosts[k][l] = true
+				if strings.Contains(l, "alloc") {
+					cc.calleeAlloc[k] = true
+				}
+			}
+		}
+	}
+	for _, w := range fr.Warn {
+		dup := false
+		for _, x := range cc.Warn {
+			dup = dup || x == w
+		}
+		if !dup {
+			cc.Warn = append(cc.Warn, w)
+		}
+	}
+}
+
+// closeCallees: a caller is verified against the contracts of its callees, so every ensures clause
+// that was assumed at a call site during this check is discharged on the callee's body in the same
+// check (transitively).  Clauses without floating point go through the symbolic route; clauses of the
+// scoring functions go through their case-split stages.
+func (cc *CheckCtx) closeCallees() {
+	done := map[string]bool{}
+	proved := func(name string) bool {
+		for _, r := range cc.Results {
+			if r.Name == name && r.Status == "proved" {
+				return true
+			}
+		}
+		return false
+	}
+	var closed []string
+	for round := 0; round < 6; round++ {
+		var todo []string
+		for k, ls := range cc.calleePosts {
+			for l := range ls {
+				if !done[k+"|"+l] {
+					todo = append(todo, k)
+					break
+				}
+			}
+		}
+		if len(todo) == 0 {
+			break
+		}
+		sort.Strings(todo)
+		for _, k := range todo {
+			pkg, fn := k[:2], k[3:]
+			var labels []string
+			for l := range cc.calleePosts[k] {
+				if !done[k+"|"+l] {
+					done[k+"|"+l] = true
+					if !proved(fmt.Sprintf("gocvss%s.%s/post/%s", pkg, fn, l)) {
+						labels = append(labels, regexp.QuoteMeta(l))
+					}
+				}
+			}
+			if len(labels) == 0 {
+				continue
+			}
+			sort.Strings(labels)
+			match := `/post/(` + strings.Join(labels, "|") + `)(/|$)`
+			closed = append(closed, k+": "+strings.Join(labels, ","))
+			// scoring functions: floating-point clauses through the stages
+			var stages []stage
+			switch pkg {
+			case "20":
+				stages = v2Stages(match)
+			case "30", "31":
+				stages = v3Stages(pkg, match)
+			}
+			ranStage := false
+			for _, s := range stages {
+				if s.Func == fn && (s.Tier != "thorough" || cc.Tier == "thorough") {
+					before := len(cc.Results)
+					cc.runStage(s)
+					cc.dedupe(before)
+					ranStage = true
+				}
+			}
+			if ranStage {
+				continue
+			}
+			before := len(cc.Results)
+			cc.runTask(Task{Pkg: pkg, Func: fn, Match: match, Opts: RunOpts{TrackAllocs: cc.calleeAlloc[k]}, NoFP: true})
+			cc.dedupe(before)
+		}
+	}
+	if len(closed) > 0 {
+		sort.Strings(closed)
+		cc.Extra["callee_clauses_discharged_in_this_check"] = closed
+	}
+}
+
+// dedupe drops results appended since 'from' whose obligation was already attempted in this check.
+func (cc *CheckCtx) dedupe(from int) {
+	seen := map[string]bool{}
+	for _, r := range cc.Results[:from] {
+		seen[r.Name] = true
+	}
+	out := cc.Results[:from]
+	for _, r := range cc.Results[from:] {
+		if seen[r.Name] {
+			continue
+		}
+		out = append(out, r)
+	}
+	cc.Results = out
 }
 
 func (cc *CheckCtx) finish(pd *PropDef, wall float64) int {
@@ -442,6 +656,9 @@ func (cc *CheckCtx) finish(pd *PropDef, wall float64) int {
 	if len(cc.ToolErr) > 0 {
 		ev["tool_errors"] = cc.ToolErr
 	}
+	if len(cc.Warn) > 0 {
+		ev["stale_contract_hints"] = cc.Warn
+	}
 	os.MkdirAll(evDir, 0o755)
 	data, _ := json.MarshalIndent(ev, "", " ")
 	os.WriteFile(filepath.Join(evDir, cc.Prop+".json"), data, 0o644)
@@ -452,9 +669,15 @@ func (cc *CheckCtx) finish(pd *PropDef, wall float64) int {
 		fmt.Println(l)
 	}
 	fmt.Printf("govc: property %s tier %s: %d obligations, %d discharged, %d violations, %d known findings, %.1fs\n", cc.Prop, cc.Tier, total, discharged, violations, len(kfLines), wall)
+	for _, w := range cc.Warn {
+		fmt.Fprintln(os.Stderr, "govc: warning:", w)
+	}
 	if len(cc.ToolErr) > 0 {
 		for _, e := range cc.ToolErr {
 			fmt.Fprintln(os.Stderr, "govc: tool error:", e)
+		}
+		if violations > 0 {
+			return 1
 		}
 		return 2
 	}
@@ -633,7 +856,7 @@ func init() {
 				fr := cc.W.RunFunc("40", "(*CVSS40).Score", RunOpts{TrackAllocs: true, AllocFilter: filter, NoSafety: true, ConcreteRet: map[string][]Value{"(CVSS40).macroVector": rv}})
 				cc.Funcs["40.(*CVSS40).Score"] = true
 				if fr.Err != "" {
-					cc.ToolErr = append(cc.ToolErr, fr.Err)
+					cc.funcErr("40", "(*CVSS40).Score", fr.Err)
 					return
 				}
 				for _, o := range fr.VC.Obligs {
